@@ -312,7 +312,7 @@ def gen_center(tier, seed):
     for d in (3, 2):
         for style in ("x", "xs", "xu"):
             for lo in origins:
-                for n, order in perms(nmax):
+                for n, order in perms(nmax if lo is origins[0] else 3):
                     for types in itertools.product((1, 2, 3), repeat=n):
                         for m in maps:
                             yield {"d": d, "style": style, "lo": lo[:d], "types": list(types), "order": order, "map": m, "F": 1}
@@ -563,7 +563,7 @@ GSD_KEYS = ("timestep", "nparticle", "particle_type", "positions", "boxlength", 
 
 
 def gen_gsd(tier, seed):
-    depth = 3
+    depth = 3 if tier == "quick" else 4
     letters = gsd_letters([1, 3])
     for d in (3, 2):
         for a in range(len(letters)):
@@ -571,7 +571,7 @@ def gen_gsd(tier, seed):
 
 
 def gen_gsd_dcd(tier, seed):
-    depth = 3
+    depth = 3 if tier == "quick" else 4
     for d in (3, 2):
         for ns in ([1], [3]):
             for a in range(len(gsd_letters(ns))):
@@ -704,29 +704,28 @@ PREAMBLE = {
             "Lattice spacing in x,y,z = 1.6795962 1.6795962 1.6795962\nCreated 4000 atoms\n  using lattice units in orthogonal box\n\n"
             "thermo 100\nrun 300\n",
 }
-TAILS = ["end", "wall", "noise", "inc2", "inc3cut", "inc4"]
+TAILS = {"quick": ["end", "noise", "inc2", "inc3cut"], "thorough": ["end", "wall", "noise", "inc2", "inc3cut", "inc4"]}
+NOISE_MID = ["none", "blank", "post", "stepword"]
 
 
 def log_alphabets(tier):
     """Per-depth event alphabets [level1, level2, level3]; an event = [noise before the section, rows, columns]."""
     if tier == "quick":
-        full = [[nz, r, c] for nz in NOISE_ALL for (r, c) in RC_QUICK]
-        core = [[nz, r, c] for nz in NOISE_CORE for (r, c) in RC_QUICK[:3]]
-        return [full, full, core]
-    full = [[nz, r, c] for nz in NOISE_ALL for (r, c) in RC_ALL]
-    mid = [[nz, r, c] for nz in NOISE_ALL for (r, c) in RC_QUICK]
-    return [full, mid, mid]
+        return [[[nz, r, c] for nz in NOISE_ALL for (r, c) in RC_QUICK],
+                [[nz, r, c] for nz in NOISE_MID for (r, c) in RC_QUICK[:3]],
+                [["none", 1, 2], ["post", 3, 4]]]
+    return [[[nz, r, c] for nz in NOISE_ALL for (r, c) in RC_ALL],
+            [[nz, r, c] for nz in NOISE_ALL for (r, c) in RC_QUICK],
+            [["none", 1, 2], ["post", 3, 4], ["blank", 2, 3], ["warn", 3, 2]]]
 
 
 def gen_log(tier, seed):
     al = log_alphabets(tier)
-    for layout in (0, 1):
-        for pre in PREAMBLE:
-            yield {"root": [], "depth": 0, "layout": layout, "pre": pre, "tier": tier, "seed": seed}  # no section at all
+    combos = [(0, "long"), (1, "short")] if tier == "quick" else [(0, "long"), (1, "short"), (0, "short"), (1, "long")]
+    for layout, pre in combos:
+        yield {"root": [], "depth": 0, "layout": layout, "pre": pre, "tier": tier, "seed": seed}  # no section at all
         for ev in al[0]:
-            pres = list(PREAMBLE) if (tier == "thorough" or ev[0] in NOISE_CORE) else ["short"]
-            for pre in pres:
-                yield {"root": [ev], "depth": 3, "layout": layout, "pre": pre, "tier": tier, "seed": seed}
+            yield {"root": [ev], "depth": 3, "layout": layout, "pre": pre, "tier": tier, "seed": seed}
 
 
 def log_text(seed, pre, layout, h, tail):
@@ -770,7 +769,7 @@ def run_log(case):
         seen.add(key)
         S = len(h)
         sig = {"S": str(S) if S < 2 else ">=2"}
-        for tail in TAILS:
+        for tail in TAILS[case["tier"]]:
             text, secs = log_text(seed, case["pre"], layout, h, tail)
             io19.put("c19.log", text)
             frames = read_lammpslog("c19.log")
@@ -826,7 +825,7 @@ def subs(tier, seed):
             rule="{2D,3D} x ndarray/list x 5 bounds sets x N {0,1,5,1e6} x K {1,2,5}; header + atom lines tokenized by the read_data rules"),
         Sub("C19.centertype", gen_center, run_center,
             rule="3 atom types; ALL 26 maps from a non-empty key subset of {1,2,3} into {1,2} + 4 extra maps (absent key, other values, unsorted); all type "
-                 "assignments {1,2,3}^N x all N! line orders, N<=3 (quick) / 4 (thorough) x styles {x (one-box excursions), xs, xu} x {2D,3D} x origins; "
+                 "assignments {1,2,3}^N x all N! line orders, N<=3 (quick) / 4 (thorough, first origin) x styles {x (one-box excursions), xs, xu} x {2D,3D} x origins; "
                  "N=5 mixed with F<=3 frames (types rotate, box changes); non-trivial = a proper non-empty subset is selected",
             bounds={"Nmax": 3 if q else 4, "maps": 30}),
         Sub("C19.vector", gen_vector, run_vector,
@@ -839,17 +838,17 @@ def subs(tier, seed):
                  "decimal/%.16e; headers from the encoder and from write_dump_header",
             bounds={"Nmax": 3 if q else 4}),
         Sub("C19.gsd", gen_gsd, run_gsd,
-            rule="explicit-state search over frame-append histories, F<=3, alphabet of 8 frames (N {1,3} x 2 typeid patterns x 2 boxes; step, positions depend on "
+            rule="explicit-state search over frame-append histories, F<=3 (quick) / 4 (thorough), alphabet of 8 frames (N {1,3} x 2 typeid patterns x 2 boxes; step, positions depend on "
                  "the position in the history; N may change between frames); every state: read_gsd, read_gsd_wrapper (2 paths), DumpReader on fresh duck objects, "
-                 "wrong ndim -> None, frame objects unchanged", bounds={"depth": 3, "alphabet": 8}),
+                 "wrong ndim -> None, frame objects unchanged", bounds={"depth": 3 if q else 4, "alphabet": 8}),
         Sub("C19.gsd_dcd", gen_gsd_dcd, run_gsd,
-            rule="explicit-state search over (frame, DCD frame)-append histories, F<=3, N fixed per search (1 or 3), alphabet of 4; every state: read_gsd_dcd, "
+            rule="explicit-state search over (frame, DCD frame)-append histories, F<=3 (quick) / 4 (thorough), N fixed per search (1 or 3), alphabet of 4; every state: read_gsd_dcd, "
                  "wrapper (2 paths, sibling .dcd name), DumpReader; companions with one frame/atom more or less -> None; wrong ndim -> None; DCD closed",
-            bounds={"depth": 3, "alphabet": 4}),
+            bounds={"depth": 3 if q else 4, "alphabet": 4}),
         Sub("C19.log", gen_log, run_log,
             rule="explicit-state search over section-append histories: event = (noise before the section from 9 kinds, rows 1-3, columns 2-4), depth 3 "
-                 "(quick: 36 events at depth 1-2, 9 core events at depth 3; thorough: 81/36/36), 2 preambles x 2 layouts; every state is closed with 6 tails "
-                 "(end of file, wall-time line, timing noise, three incomplete trailing sections) and read back: count, names, every value",
+                 "(events per level quick 36/12/2, thorough 81/36/4), preamble x layout combinations 2 (quick) / 4; every state is closed with 4 (quick) / 6 tails "
+                 "(end of file, wall-time line, timing noise, incomplete trailing sections of 2-4 rows) and read back: count, names, every value",
             bounds={"depth": 3}),
     ]
     return s
